@@ -46,7 +46,7 @@ def _(c):
     c.note('abstract: the delay of reaction r is a function of (interface, r, state, parameters) and of the stream from the current position')
 
 
-@fuc('simulator', 'DelaySSASimulator.delay_simulate', props=['C10', 'C06', 'C09'])
+@fuc('simulator', 'DelaySSASimulator.delay_simulate', props=['C10', 'C06', 'C09', 'C07'])
 def _(c):
     c.array('timepoints', ndim=1, elem='Real')
     c.hints['q'] = dict(cls='ArrayDelayQueue', exact=True)
